@@ -10,6 +10,7 @@ import (
 	"fmt"
 	"io"
 	"math/rand/v2"
+	"runtime"
 	"strings"
 	"sync/atomic"
 	"time"
@@ -26,9 +27,23 @@ import (
 type SpySigner struct {
 	K     *sim.Key
 	Signs atomic.Int64
+	// Jitter makes Public() yield or sleep briefly: the library calls it while it configures a new
+	// signing context, so a slow key (HSM, KMS) widens whatever window exists there.
+	Jitter  bool
+	publics atomic.Uint64
 }
 
-func (s *SpySigner) Public() crypto.PublicKey { return s.K.Signer.Public() }
+func (s *SpySigner) Public() crypto.PublicKey {
+	if s.Jitter {
+		switch n := s.publics.Add(1); n % 3 {
+		case 0:
+			runtime.Gosched()
+		case 1:
+			time.Sleep(time.Duration(50+(n*37)%150) * time.Microsecond)
+		}
+	}
+	return s.K.Signer.Public()
+}
 func (s *SpySigner) Sign(r io.Reader, digest []byte, opts crypto.SignerOpts) ([]byte, error) {
 	s.Signs.Add(1)
 	return s.K.Signer.Sign(r, digest, opts)
@@ -39,6 +54,7 @@ type KeyCfg struct {
 	EncField, EncSetter, SignField, SignSetter bool
 	ECSetter                                   bool // signing setter key is ECDSA
 	SpyEnc                                     bool // wrap the encryption setter key in a spy (it can then sign but not decrypt)
+	Jitter                                     bool // spies yield/sleep in Public()
 }
 
 func (k KeyCfg) String() string {
@@ -101,7 +117,7 @@ func NewKeyedSP(now time.Time, cfg KeyCfg, store ...*sim.Cert) *KeyedSP {
 	if cfg.EncSetter {
 		c := sim.Wide(sim.K("spenc2"), now)
 		k.Certs["encS"] = c
-		k.Spies["encS"] = &SpySigner{K: c.Key}
+		k.Spies["encS"] = &SpySigner{K: c.Key, Jitter: cfg.Jitter}
 		// the encryption setter key must stay an *rsa.PrivateKey to be able to decrypt;
 		// the spy is used only when this source is expected to sign and never to decrypt
 		if cfg.SpyEnc {
@@ -123,7 +139,7 @@ func NewKeyedSP(now time.Time, cfg KeyCfg, store ...*sim.Cert) *KeyedSP {
 		}
 		c := sim.Wide(sim.K(name), now)
 		k.Certs["signS"] = c
-		k.Spies["signS"] = &SpySigner{K: c.Key}
+		k.Spies["signS"] = &SpySigner{K: c.Key, Jitter: cfg.Jitter}
 		sp.SetSPSigningKeyStore(&saml2.KeyStore{Signer: k.Spies["signS"], Cert: c.DER})
 	}
 	switch {
